@@ -818,6 +818,33 @@ fn gen_case(seed: u64, i: usize, tier: &str, focus: &str) -> (Cfg, Vec<String>) 
     wheel: *rng.pick(&[2usize, 3, 4, 8, 60]), tick: 1000, mc_always: rng.chance(1, 2), moi, lis, t0: 1_000_000, async_loader: rng.chance(1, 4),
     nkeys: if tti.is_some() { *rng.pick(&[3u64, 5, 8, 10]) } else { *rng.pick(&[3u64, 5, 8, 12]) } };
   let nkeys = cfg.nkeys;
+  if (focus == "iter" || focus == "snapshot") && rng.chance(1, 8) {
+    // sizes around the default batch size (64·k ± 1), several shards, some entries expiring: few, large operations
+    let mut cfg = cfg.clone();
+    cfg.nkeys = *rng.pick(&[63u64, 64, 65, 127, 128, 129, 130]);
+    if let Some(c) = cfg.cap { if rng.chance(2, 3) { cfg.cap = Some(c + 200); cfg.pcap = (c + 200 + cfg.shards as u64 - 1) / cfg.shards as u64; } }
+    if cfg.tti.is_some() { cfg.tti = None; }
+    let mut ops: Vec<String> = vec![];
+    let mut vid = 1000u64;
+    let all: Vec<String> = (0..cfg.nkeys).map(|k| { vid += 1; format!("{k}:{vid}:1") }).collect();
+    let split = rng.range(1, cfg.nkeys - 1) as usize;
+    ops.push(format!("multi_insert {}", all[..split].join(",")));
+    if cfg.ttl.is_some() { ops.push(format!("advance {}", *rng.pick(&[1u64, 500, 1000]))); }
+    ops.push(format!("{}multi_insert {}", if !cfg.mc_always && rng.chance(1, 2) { "a." } else { "" }, all[split..].join(",")));
+    for _ in 0..rng.below(4) { ops.push(format!("remove {}", rng.below(cfg.nkeys))); }
+    if rng.chance(1, 2) { ops.push("maint".into()); }
+    if let Some(t) = cfg.ttl { if rng.chance(1, 2) { ops.push(format!("advance {}", t - *rng.pick(&[0u64, 1, 500]))); } }
+    let a = |r: &mut Rng| if !cfg.mc_always && r.chance(1, 2) { "a." } else { "" };
+    ops.push(format!("{}iter 64", a(&mut rng)));
+    ops.push(format!("{}iter {}", a(&mut rng), *rng.pick(&[1u64, 7, 32, 63, 64, 65, 128])));
+    ops.push(format!("{}iter 64 {}:{}", a(&mut rng), *rng.pick(&[0u64, 1, 63, 64, 65]), *rng.pick(&[1u64, 500, 1000, 3000])));
+    ops.push(format!("{}iter_snapshot", a(&mut rng)));
+    ops.push(format!("{}snapshot", a(&mut rng)));
+    if rng.chance(1, 2) { ops.push("advance 500".into()); }
+    ops.push("restore".into());
+    ops.push("iter 64".into()); ops.push("cost".into()); ops.push("maint".into()); ops.push("iter_snapshot".into()); ops.push("cost".into());
+    return (cfg, ops);
+  }
   let len = if tier == "thorough" { rng.range(6, 90) } else { rng.range(5, 45) } as usize;
   let mut g = Gen { rng, vid: 100, nkeys, now: cfg.t0, deadlines: vec![], cfg: cfg.clone(), ops: vec![], held: false, gate: false, snap: false };
   for _ in 0..len { g.step(focus); }
